@@ -39,6 +39,9 @@ POSITIONS = [
     "q1 + Q1", "rate * Rate", "[items].map(v, ITEMS)", "{'a': q1, 'b': Q1}.a", "q1 ? Q1 : qQ1", "f'{q1}{Q1}'", "q1.f(Q1)", "q_1 + q1 + q1_",
     "q1 + q11 + q111", "ab + aB + Ab + AB", "x1 + X1 + x_1 + _x1", "q1 + q1 + q1", "match q1 { case Q1: qq1 }", "[q1, Q1].map(Q1, q1 + Q1)",
     "zz + ZZ + zZ + Zz", "i + I", "has(q1.Q1) && has(Q1.q1)", "size + Size", "int + Int + INT",
+    # the variable called `_` (only directly after `case` is it the wildcard) and its neighbours
+    "_ + 1", "q1 + _", "match _ { case int: _ + q1, case _: 0 }", "[1].map(v, v + _)", "f(_)", "__ + _x + x_ + _", "{'k': _}.k", "f'{_}'",
+    "match 1 { case _: _ }", "match 1 { case == _: 2 }", "_.f(_1)", "[_][0]", "true ? 1 : _", "has(_.a)", "_ || q1",
 ]
 
 
@@ -165,9 +168,11 @@ def template_names(txt):
     names = set()
     for m in re.finditer(r"(?<![A-Za-z0-9_.])([A-Za-z_][A-Za-z0-9_]*)", flat):
         w = m.group(1)
-        if w in ("true", "false", "null", "in", "match", "case", "_"):
+        if w in ("true", "false", "null", "in", "match", "case"):
             continue
         before = flat[:m.start()].rstrip()
+        if w == "_" and before.endswith("case"):
+            continue        # the wildcard pattern; everywhere else `_` is an ordinary variable name
         if before.endswith("case") and w in ("int", "uint", "string", "bool", "double", "float", "bytes", "timestamp",
                                               "duration", "type", "dyn", "null_type"):
             continue
